@@ -61,6 +61,8 @@ pub enum Disc {
 pub struct Ext {
     /// allow `Disc::MutShared` values (legal `&mut` injection)
     pub mut_refs: bool,
+    /// singletons may be built from transients (C02 speaks of singletons built from singletons only)
+    pub startup_transients: bool,
 }
 
 fn pick(raw: u16, len: usize) -> usize {
@@ -105,10 +107,20 @@ pub fn build_abiding_ext(g: &Genome, ext: Ext) -> Built {
         types: &[TypeSpec],
         discs: &[Disc],
         claimed: &mut [bool],
+        ext: Ext,
     ) -> Option<Mode> {
         let t = &types[j];
         if let Consumer::Ctor(Life::Singleton) = consumer {
-            if t.life != Life::Singleton {
+            // a singleton is built from singletons, and from transients that are themselves built
+            // from nothing but singletons / such transients (no request-scoped value anywhere below)
+            fn startup_ok(j: usize, types: &[TypeSpec]) -> bool {
+                match types[j].life {
+                    Life::Singleton => true,
+                    Life::Request => false,
+                    Life::Transient => types[j].inputs.iter().all(|(i, _)| startup_ok(*i, types)),
+                }
+            }
+            if !(t.life == Life::Singleton || (ext.startup_transients && startup_ok(j, types))) {
                 return None;
             }
         }
@@ -169,7 +181,7 @@ pub fn build_abiding_ext(g: &Genome, ext: Ext) -> Built {
             if inputs.iter().any(|(t, _)| *t == j) {
                 continue;
             }
-            if let Some(mode) = mode_for(j, m % 2 == 1, Consumer::Ctor(life), &types, &discs, &mut claimed) {
+            if let Some(mode) = mode_for(j, m % 2 == 1, Consumer::Ctor(life), &types, &discs, &mut claimed, ext) {
                 inputs.push((j, mode));
                 used_by_non_handler[j] = true;
             }
@@ -180,16 +192,21 @@ pub fn build_abiding_ext(g: &Genome, ext: Ext) -> Built {
         // their constructor borrows (a value that is only ever borrowed, or Copy, or clone-if-necessary:
         // keeping it borrowed can always be satisfied)
         let view_of = if life != Life::Singleton && matches!(disc, Disc::BorrowOnly | Disc::MoveOnce | Disc::Fresh) && (tg.life / 4) % 3 != 2 {
+            // (first choice: a reference-holding value taken by value and kept: the new value then
+            // holds, transitively, whatever that one holds)
             inputs
                 .iter()
-                .find(|(j, m)| *m == Mode::Ref && types[*j].view_of.is_none() && (types[*j].life == Life::Singleton || matches!(discs[*j], Disc::BorrowOnly | Disc::Copy | Disc::CloneIfNecessary)))
+                .find(|(j, m)| *m == Mode::Move && types[*j].view_of.is_some() && !types[*j].is_copy && types[*j].clone_if_necessary != Some(true))
+                .or_else(|| inputs.iter().find(|(j, m)| *m == Mode::Ref && types[*j].view_of.is_none() && (types[*j].life == Life::Singleton || matches!(discs[*j], Disc::BorrowOnly | Disc::Copy | Disc::CloneIfNecessary))))
                 .map(|(j, _)| *j)
         } else {
             None
         };
+        // (such a holder cannot be cloned by the emitted code)
+        let holder_by_value = view_of.is_some_and(|j| types[j].view_of.is_some());
         types.push(TypeSpec {
             life,
-            is_clone: matches!(disc, Disc::CloneIfNecessary) || (disc == Disc::Fresh && tg.disc % 2 == 0),
+            is_clone: (matches!(disc, Disc::CloneIfNecessary) || (disc == Disc::Fresh && tg.disc % 2 == 0)) && !holder_by_value,
             is_copy: disc == Disc::Copy,
             clone_if_necessary: match disc {
                 Disc::CloneIfNecessary => Some(true),
@@ -246,7 +263,7 @@ pub fn build_abiding_ext(g: &Genome, ext: Ext) -> Built {
             if inputs.iter().any(|(t, _)| *t == j) {
                 continue;
             }
-            if let Some(mode) = mode_for(j, m % 2 == 1, consumer, types, discs, claimed) {
+            if let Some(mode) = mode_for(j, m % 2 == 1, consumer, types, discs, claimed, ext) {
                 inputs.push((j, mode));
                 if consumer != Consumer::Handler {
                     ubnh[j] = true;
@@ -344,7 +361,7 @@ pub fn build_abiding_ext(g: &Genome, ext: Ext) -> Built {
             if raw % 4 != 0 {
                 continue;
             }
-            let kind = ((raw / 4) % 3) as u8;
+            let kind = ((raw / 4) % 4) as u8;
             let inner = pick(raw / 12, n);
             let borrowable = matches!(discs[inner], Disc::BorrowOnly | Disc::Copy | Disc::CloneIfNecessary) || types[inner].life == Life::Singleton;
             let life_ok = (kind != 0 || types[inner].life == Life::Singleton) && types[inner].view_of.is_none();
@@ -767,7 +784,7 @@ pub fn build_routing(g: &RoutingGenome, k: usize) -> AppSpec {
             let mut regs = vec![];
             // each domain has its own path namespace
             let mut taken_d = Default::default();
-            let leaf = ScopeGene { routes: sg.routes.clone(), fallback: sg.fallback, prefix_kind: 0, children: if i == 0 { sg.children.iter().take(1).cloned().collect() } else { vec![] } };
+            let leaf = ScopeGene { routes: sg.routes.clone(), fallback: sg.fallback, prefix_kind: 0, children: if i == 0 { sg.children.iter().take(1).cloned().collect() } else if i % 2 == 1 { sg.children.iter().take(3).cloned().collect() } else { vec![] } };
             scope(&leaf, true, false, 1, "", 0, &mut comps, &mut taken_d, &mut nest_counter, &mut regs);
             fn has_handler(regs: &[Reg], comps: &[CompSpec]) -> bool {
                 regs.iter().any(|r| match r {
@@ -776,11 +793,14 @@ pub fn build_routing(g: &RoutingGenome, k: usize) -> AppSpec {
                     _ => false,
                 })
             }
-            let _ = has_handler;
             // every guarded blueprint registers at least one route *directly* (otherwise the
             // compiler takes the deepest common blueprint of the domain's components as the
             // domain's root, and an unrelated nested fallback serves the whole domain)
-            if !regs.iter().any(|r| matches!(r, Reg::Comp { idx } if comps[*idx].kind == CompKind::Handler)) {
+            // ... or holds at least two nested blueprints with routes (their common ancestor is the
+            // guarded blueprint itself): then, half of the time, it has no route of its own
+            let nested_with_routes = regs.iter().filter(|r| matches!(r, Reg::Nest { bp, .. } if has_handler(bp, &comps))).count();
+            let may_stay_empty = nested_with_routes >= 2 && (g.domains as usize / 7 + i) % 2 == 0;
+            if !may_stay_empty && !regs.iter().any(|r| matches!(r, Reg::Comp { idx } if comps[*idx].kind == CompKind::Handler)) {
                 regs.insert(0, Reg::Comp { idx: comps.len() });
                 comps.push(CompSpec {
                     kind: CompKind::Handler,
@@ -1676,4 +1696,96 @@ pub fn wildify(base: &AppSpec, raw: u64) -> AppSpec {
     }
     spec.note = format!("wild: {} || {}", base.note, done.join("; "));
     spec
+}
+
+// ------------------------------------------------------------------------------------------
+// Start-up stress (C03, C01): several singletons built from the same transients (by value and by
+// reference, directly and through another transient). Every injection site of a transient gets a
+// value of its own, also while the application state is being built.
+// ------------------------------------------------------------------------------------------
+
+pub fn build_startup_stress(raw: u64) -> AppSpec {
+    let mut s = raw | 1;
+    let mut next = move || {
+        s ^= s << 13;
+        s ^= s >> 7;
+        s ^= s << 17;
+        (s >> 9) as usize
+    };
+    let mk = |life: Life, inputs: Vec<(usize, Mode)>| TypeSpec {
+        life,
+        is_clone: false,
+        is_copy: false,
+        clone_if_necessary: None,
+        inputs,
+        fallible: None,
+        is_async: false,
+        variants: 1,
+        send_sync: true,
+        prebuilt: false,
+        attr_life: None,
+        attr_clone: None,
+        allow_unused: false,
+        v1_flip: false,
+        view_of: None,
+    };
+    let mut types = vec![];
+    // T0: base singleton; T1: transient (from &T0 or from nothing); T2: transient built from a T1
+    types.push(mk(Life::Singleton, vec![]));
+    let mut t1 = mk(Life::Transient, if next() % 2 == 0 { vec![(0, Mode::Ref)] } else { vec![] });
+    t1.is_async = next() % 3 == 0;
+    if next() % 3 == 0 {
+        t1.fallible = Some(0);
+    }
+    types.push(t1);
+    types.push(mk(Life::Transient, vec![(1, if next() % 2 == 0 { Mode::Move } else { Mode::Ref })]));
+    // T3..: singletons built from the transients
+    let n_single = 2 + next() % 3;
+    for _ in 0..n_single {
+        let mut inputs = vec![];
+        match next() % 4 {
+            0 => inputs.push((1, Mode::Ref)),
+            1 => inputs.push((1, Mode::Move)),
+            2 => inputs.push((2, Mode::Ref)),
+            _ => {
+                inputs.push((1, Mode::Ref));
+                inputs.push((2, Mode::Move));
+            }
+        }
+        if next() % 3 == 0 {
+            inputs.push((0, Mode::Ref));
+        }
+        let mut t = mk(Life::Singleton, inputs);
+        t.is_async = next() % 3 == 0;
+        types.push(t);
+    }
+    let n = types.len();
+    let mut comps = vec![];
+    let mut bp: Vec<Reg> = (0..n).map(|t| Reg::Ctor { ty: t, variant: 0 }).collect();
+    bp.push(Reg::Comp { idx: 0 });
+    comps.push(CompSpec { kind: CompKind::ErrHandler { err: 0, default: false }, inputs: vec![], fallible: None, is_async: false, route: None, fw: vec![], gens: vec![] });
+    for h in 0..(1 + next() % 2) {
+        // every singleton is needed at request time (otherwise it is not built at all)
+        let mut inputs: Vec<(usize, Mode)> = (3..n).filter(|_| next() % 4 != 0).map(|t| (t, Mode::Ref)).collect();
+        if h == 0 {
+            inputs = (3..n).map(|t| (t, Mode::Ref)).collect();
+        }
+        if next() % 2 == 0 {
+            inputs.push((1, if next() % 2 == 0 { Mode::Move } else { Mode::Ref }));
+        }
+        if next() % 3 == 0 {
+            inputs.push((2, Mode::Ref));
+        }
+        bp.push(Reg::Comp { idx: comps.len() });
+        comps.push(CompSpec {
+            kind: CompKind::Handler,
+            inputs,
+            fallible: None,
+            is_async: next() % 2 == 0,
+            route: Some(RouteSpec { methods: vec!["GET".into()], path: format!("/h{h}"), path_param_fields: vec![], bulk: false }),
+            fw: vec![],
+            gens: vec![],
+        });
+    }
+    AppSpec { peel: false, types, n_errs: 1, comps, bp, note: "abiding (start-up stress)".into() }
 }
